@@ -138,8 +138,9 @@ Hendaccess(int32 access_id)
 static int32 HCIcrle_init(accrec_t *access_rec)
     __CPROVER_requires(access_rec != NULL && access_rec->special_info != NULL && AR_INFO(access_rec)->aid == CSC.aid)
     __CPROVER_assigns(RF(AR_INFO(access_rec), offset), RF(AR_INFO(access_rec), rle_state), RF(AR_INFO(access_rec), last_byte),
-                      RF(AR_INFO(access_rec), second_byte), RF(AR_INFO(access_rec), buf_pos), CS_ALL)
+                      RF(AR_INFO(access_rec), second_byte), RF(AR_INFO(access_rec), buf_pos), RF(AR_INFO(access_rec), encoding), CS_ALL)
     __CPROVER_ensures(__CPROVER_return_value == SUCCEED || __CPROVER_return_value == FAIL)
+    __CPROVER_ensures(__CPROVER_return_value == SUCCEED ==> RF(AR_INFO(access_rec), encoding) == 0)
     __CPROVER_ensures(CS.nrew == __CPROVER_old(CS.nrew) + 1 && CS.nwr == __CPROVER_old(CS.nwr) && CS.nrd == __CPROVER_old(CS.nrd) &&
                       CS.nend == __CPROVER_old(CS.nend))
     __CPROVER_ensures(__CPROVER_return_value == SUCCEED ==> (RLE_EMPTY(AR_INFO(access_rec)) && CS.dpos == 0))
@@ -152,8 +153,9 @@ static int32 HCIcrle_term(compinfo_t *info)
     __CPROVER_requires(info != NULL && info->aid == CSC.aid)
     __CPROVER_requires(RF(info, rle_state) == RLE_INIT || (RF(info, rle_state) == RLE_RUN && RF(info, buf_length) >= 1 && RF(info, buf_length) <= RLE_MAX_RUN) ||
                        (RF(info, rle_state) == RLE_MIX && RF(info, buf_length) >= 1 && RF(info, buf_length) <= RLE_BUF_SIZE))
-    __CPROVER_assigns(RF(info, rle_state), RF(info, last_byte), RF(info, second_byte), CS_ALL)
+    __CPROVER_assigns(RF(info, rle_state), RF(info, encoding), RF(info, last_byte), RF(info, second_byte), CS_ALL)
     __CPROVER_ensures(__CPROVER_return_value == SUCCEED || __CPROVER_return_value == FAIL)
+    __CPROVER_ensures(__CPROVER_return_value == SUCCEED ==> RF(info, encoding) == 0)
     __CPROVER_ensures(CS.nrew == __CPROVER_old(CS.nrew) && CS.dpos == __CPROVER_old(CS.dpos) && CS.nrd == __CPROVER_old(CS.nrd) &&
                       CS.nend == __CPROVER_old(CS.nend))
     __CPROVER_ensures(__CPROVER_old(RF(info, rle_state)) == RLE_INIT ==>
@@ -202,7 +204,10 @@ int32 HCPcrle_seek(accrec_t *access_rec, int32 offset, int origin)
     /* the decoded-stream position is where the coder says it is; pending encoder state only on a write access */
     __CPROVER_requires(CS.dpos == RF(AR_INFO(access_rec), offset))
     __CPROVER_requires(!CSC.enc_pending || ((access_rec->access & DFACC_WRITE) && RF(AR_INFO(access_rec), rle_state) != RLE_INIT))
-    __CPROVER_assigns(RF(AR_INFO(access_rec), offset), RF(AR_INFO(access_rec), rle_state), RF(AR_INFO(access_rec), last_byte),
+    /* the coder's own record of the history (kept by HCIcrle_encode / _init / _term, see crle_u.c): set whenever encoder state is pending */
+    __CPROVER_requires(CSC.enc_pending ? RF(AR_INFO(access_rec), encoding) == 1
+                                       : (RF(AR_INFO(access_rec), rle_state) == RLE_INIT || RF(AR_INFO(access_rec), encoding) == 0))
+    __CPROVER_assigns(RF(AR_INFO(access_rec), offset), RF(AR_INFO(access_rec), rle_state), RF(AR_INFO(access_rec), last_byte), RF(AR_INFO(access_rec), encoding),
                       RF(AR_INFO(access_rec), second_byte), RF(AR_INFO(access_rec), buf_length), RF(AR_INFO(access_rec), buf_pos),
                       __CPROVER_object_upto(RF(AR_INFO(access_rec), buffer), RLE_BUF_SIZE), CS_ALL)
     __CPROVER_ensures(__CPROVER_return_value == SUCCEED || __CPROVER_return_value == FAIL)
@@ -233,7 +238,9 @@ int HCPcrle_endaccess(accrec_t *access_rec)
                        (RF(AR_INFO(access_rec), rle_state) == RLE_MIX && RF(AR_INFO(access_rec), buf_length) >= 1 &&
                         RF(AR_INFO(access_rec), buf_length) <= RLE_BUF_SIZE))
     __CPROVER_requires(!CSC.enc_pending || ((access_rec->access & DFACC_WRITE) && RF(AR_INFO(access_rec), rle_state) != RLE_INIT))
-    __CPROVER_assigns(RF(AR_INFO(access_rec), rle_state), RF(AR_INFO(access_rec), last_byte), RF(AR_INFO(access_rec), second_byte), CS_ALL)
+    __CPROVER_requires(CSC.enc_pending ? RF(AR_INFO(access_rec), encoding) == 1
+                                       : (RF(AR_INFO(access_rec), rle_state) == RLE_INIT || RF(AR_INFO(access_rec), encoding) == 0))
+    __CPROVER_assigns(RF(AR_INFO(access_rec), rle_state), RF(AR_INFO(access_rec), encoding), RF(AR_INFO(access_rec), last_byte), RF(AR_INFO(access_rec), second_byte), CS_ALL)
     __CPROVER_ensures(__CPROVER_return_value == SUCCEED || __CPROVER_return_value == FAIL)
     __CPROVER_ensures(__CPROVER_return_value == FAIL ==> CS.failed == 1)
     __CPROVER_ensures(CS.nrew == __CPROVER_old(CS.nrew) && CS.nrd == __CPROVER_old(CS.nrd))
@@ -284,6 +291,8 @@ mk_env(void)
     H4V_ND(unsigned, st_second);
     H4V_ND(unsigned, ar_access);
     H4V_ND(int, enc_pending);
+    H4V_ND(int, enc_flag);
+    RF(info, encoding)    = enc_flag != 0;
     info->aid             = CSC.aid;
     RF(info, offset)      = st_offset;
     RF(info, rle_state)   = st_state;
@@ -335,6 +344,8 @@ assume_history(accrec_t *ar)
 #else
     H4V_ASSUME((ar->access & DFACC_WRITE) && !CSC.enc_pending);
 #endif
+    /* the history invariant of the coder's flag: set by the encoder, cleared by init / term, untouched by the decoder */
+    H4V_ASSUME(CSC.enc_pending ? RF(AR_INFO(ar), encoding) == 1 : (RF(AR_INFO(ar), rle_state) == RLE_INIT || RF(AR_INFO(ar), encoding) == 0));
 }
 
 void
